@@ -475,6 +475,11 @@ class ExecutionState:
         # Enqueue the wrapper object (operation_update can be None for empty checkpoints)
         self._checkpoint_queue.put(queued_op)
 
+        # The background thread may have failed between the check above and the put, in
+        # which case nobody will ever drain the queue: fail here instead of waiting forever.
+        if self._checkpointing_failed.is_set():
+            self._checkpointing_failed.wait()
+
         # Conditionally wait for completion based on is_sync parameter
         if is_sync:
             logger.debug("Enqueued checkpoint operation for synchronous processing")
@@ -636,6 +641,10 @@ class ExecutionState:
                         "Checkpoint creation failed", e
                     )
 
+                    # Set the failure event first, so that a producer that enqueues while the
+                    # queues are being drained below fails immediately instead of blocking forever
+                    self._checkpointing_failed.set(bg_error)
+
                     # FIFO: although at this point order not really import any anymore
                     # Signal completion events for the failed batch
                     for queued_op in batch:
@@ -659,9 +668,6 @@ class ExecutionState:
                                 item.completion_event.set(bg_error)
                         except queue.Empty:
                             break
-
-                    # Set the failure event so future checkpoint attempts fail immediately
-                    self._checkpointing_failed.set(bg_error)
 
                     # Exit the loop - error has been signaled to main thread via completion events
                     break
